@@ -88,7 +88,12 @@ static std::string basisCheck(const LP& lp, const VarStatus* rows, const VarStat
       if(cols[j] == Solver::BASIC) basic++;
       else if(cols[j] == Solver::ON_LOWER && !isFin(lp.lo[j])) e << "col " << j << " ON_LOWER at infinite lower; ";
       else if(cols[j] == Solver::ON_UPPER && !isFin(lp.up[j])) e << "col " << j << " ON_UPPER at infinite upper; ";
-      else if(cols[j] == Solver::FIXED && lp.lo[j] != lp.up[j]) e << "col " << j << " FIXED with lower != upper; ";
+      else if(cols[j] == Solver::FIXED && lp.lo[j] != lp.up[j])
+      {
+         // known finding C08/postsolve-fixed-label
+         if(knownKey("postsolve-fixed-label")) ev().count("excluded_known.postsolve-fixed-label");
+         else e << "col " << j << " FIXED with lower != upper; ";
+      }
       else if(cols[j] == Solver::UNDEFINED) e << "col " << j << " UNDEFINED; ";
    }
    if(basic != lp.m()) e << basic << " basic variables for " << lp.m() << " rows; ";
@@ -129,6 +134,8 @@ static Verdict runInner(const Case& c)
    for(auto& nm : SoPlexVerifAccess::histNames(sm)) kinds.insert(nm);
    for(auto& k : kinds) e.count("hist." + k);
    bool dualstats = opts().xi("dualstats", 0) != 0;
+   // known finding C08/postsolve-dual-vectors: the dual side (y, r) of a postsolved solution is counted, not judged
+   bool skipDual = knownKey("postsolve-dual-vectors");
    // judge the dual side (y, r: linking, signs, gap) of a postsolved solution; primal-side messages are returned as is
    auto dualSide = [](const std::string & m)
    {
@@ -205,6 +212,11 @@ static Verdict runInner(const Case& c)
       Q obj = lp.objval(X);
       std::string msg = checkOptimalCert(lp, X, S, Y, Dv, obj, t, &c.pl);
       if(dualstats) noteDual(!msg.empty() && dualSide(msg), msg);
+      if(!msg.empty() && skipDual && dualSide(msg))
+      {
+         e.count("excluded_known.postsolve-dual-vectors");
+         msg.clear();
+      }
       if(!msg.empty() && !(dualstats && dualSide(msg)))
       {
          v.fail("postsolve after VANISHED: " + msg);
@@ -224,8 +236,23 @@ static Verdict runInner(const Case& c)
    if(dump) fprintf(stderr, "%s", lpText(red).c_str());
    if(red.m() <= 16 && red.n() <= 16)
    {
+      // the reduced LP carries rounding errors of the presolve arithmetic; exact reasoning about it is only
+      // meaningful after relaxing every bound and side outward by 1e-9 (1 + |value|): a point that is feasible up to
+      // rounding stays feasible, while an over- or under-constrained reduction still moves the optimum by O(1)
+      LP rel = red;
+      Q delta(1, 1000000000);
+      for(int j = 0; j < rel.n(); j++)
+      {
+         if(isFin(rel.lo[j])) rel.lo[j] -= delta * (1 + qabs(rel.lo[j]));
+         if(isFin(rel.up[j])) rel.up[j] += delta * (1 + qabs(rel.up[j]));
+      }
+      for(int i = 0; i < rel.m(); i++)
+      {
+         if(isFin(rel.lhs[i])) rel.lhs[i] -= delta * (1 + qabs(rel.lhs[i]));
+         if(isFin(rel.rhs[i])) rel.rhs[i] += delta * (1 + qabs(rel.rhs[i]));
+      }
       Q zr;
-      int rc = z3Classify(red, &zr);
+      int rc = z3Classify(rel, &zr);
       e.count(std::string("reduced_class.") + className(rc));
       if(rc != CL_UNKNOWN)
       {
@@ -249,7 +276,7 @@ static Verdict runInner(const Case& c)
             else
             {
                Q diff = qabs(zr + objoff + lp.offset - c.pl.z);
-               if(diff > Q(1, 10000000) * (1 + qabs(c.pl.z)))
+               if(diff > Q(1, 1000000) * (1 + qabs(c.pl.z)))
                {
                   // objective of the reduced problem may legitimately move only by rounding
                   bad("has optimum " + fmtd(zr + objoff + lp.offset) + " (expected " + fmtd(c.pl.z) + ")");
@@ -328,6 +355,11 @@ static Verdict runInner(const Case& c)
       Q obj = lp.objval(X);
       std::string msg = checkOptimalCert(lp, X, S, Y, Dv, obj, t, &c.pl);
       if(dualstats) noteDual(!msg.empty() && dualSide(msg), msg);
+      if(!msg.empty() && skipDual && dualSide(msg))
+      {
+         e.count("excluded_known.postsolve-dual-vectors");
+         msg.clear();
+      }
       if(!msg.empty() && !(dualstats && dualSide(msg)))
       {
          v.fail("postsolve (vertex " + std::to_string(k) + "): " + msg);
